@@ -166,5 +166,6 @@ func runC11(cx *ctx) {
 			}
 			return c
 		})
-	}
+	}	// recipient shapes and label lists outside the enumeration above (c11_extra.go)
+	c11Extra(cx)
 }
